@@ -374,7 +374,10 @@ Mon_FromStart == \A s \in Streams : FromStart(sent[s], from[s])
 \* every beacon in the store has been, or is being, dispatched to the callbacks registered at that time
 Mon_StoredDispatched == \A r \in (InitHead + 1)..head :
                           r \in dispd \/ \E w \in Writers : wr[w].r = r /\ wr[w].pc = "stored"
-Mon_C11 == Mon_NoRepeat /\ Mon_InOrder /\ Mon_NoGap /\ Mon_FromStart
+\* nothing below the requested start round is ever handed to the stream (a request above the head is
+\* refused; it is never turned into a "live only" stream)
+Mon_BeforeStart == \A s \in Streams : from[s] # 0 => \A i \in DOMAIN sent[s] : sent[s][i] >= from[s]
+Mon_C11 == Mon_BeforeStart /\ Mon_NoRepeat /\ Mon_InOrder /\ Mon_NoGap /\ Mon_FromStart
 
 Healthy(s) == cons[s] = "reading" /\ ~ctxd[s]
 Quiet == /\ \A w \in Writers : wr[w].pc = "idle"
